@@ -184,4 +184,61 @@ void a_reports_unrecorded(void)
     cmb_event_queue_terminate();
 }
 
-const struct sym_entry sym_entries[] = { {"a_dataset", a_dataset}, {"a_timeseries", a_timeseries}, {"a_logger_names", a_logger_names}, {"a_reports_unrecorded", a_reports_unrecorded}, {0, 0} };
+/* stopping processes that are not running: never started, started but not yet run, already finished (documented to warn
+ * and return), then the usual end of their life */
+static void *idle(struct cmb_process *me, void *ctx) { (void)me; (void)ctx; (void)cmb_process_hold(1.0); return 0; }
+void a_stop_not_running(void)
+{
+    cmb_logger_flags_off(0xFFFFFFFFu);
+    cmb_event_queue_initialize(0.0);
+    struct cmb_process *p[3];
+    for (int i = 0; i < 3; i++) { p[i] = cmb_process_create(); cmb_process_initialize(p[i], "p", idle, 0, 0); }
+    cmb_process_start(p[1]);                         /* started, has not run yet */
+    cmb_process_start(p[2]);
+    uint64_t early = sym_choice(2, "stop_before_first_run");
+    if (early) cmb_process_stop(p[1], 0);
+    cmb_process_stop(p[0], 0);                       /* never started */
+    cmb_event_queue_execute();
+    cmb_process_stop(p[2], 0);                       /* finished */
+    cmb_process_stop(p[0], 0);
+    sym_assert(cmb_process_status(p[2]) == CMB_PROCESS_FINISHED, "a finished process stays finished");
+    for (int i = 0; i < 3; i++) { cmb_process_terminate(p[i]); cmb_process_destroy(p[i]); }
+    cmb_event_queue_terminate();
+}
+
+/* copies into objects that are already in use (larger or smaller than the source), then growth of the copy beyond the
+ * source's capacity */
+#ifndef NT
+#define NT 3
+#endif
+#ifndef NS
+#define NS 2
+#endif
+#ifndef NADD
+#define NADD 4
+#endif
+void a_copy_into_used(void)
+{
+    struct cmb_dataset *dt = cmb_dataset_create(), *ds = cmb_dataset_create();
+    struct cmb_timeseries *tt = cmb_timeseries_create(), *ts = cmb_timeseries_create();
+    double x0 = sx();
+    for (int i = 0; i < NT; i++) { cmb_dataset_add(dt, x0 + i); cmb_timeseries_add(tt, x0 + i, (double)i); }
+    for (int i = 0; i < NS; i++) { cmb_dataset_add(ds, x0 - i); cmb_timeseries_add(ts, x0 - i, (double)i); }
+    sym_assert(cmb_dataset_copy(dt, ds) == NS && cmb_dataset_count(dt) == NS, "a copy has the source's number of samples");
+    sym_assert(cmb_timeseries_copy(tt, ts) == NS && cmb_timeseries_count(tt) == NS, "a copy has the source's number of samples");
+    for (int i = 0; i < NS; i++) {
+        sym_assert(dt->xa[i] == ds->xa[i], "a copy has the source's samples");
+        sym_assert(((struct cmb_dataset *)tt)->xa[i] == ((struct cmb_dataset *)ts)->xa[i] && tt->ta[i] == ts->ta[i], "a copy has the source's samples and times");
+    }
+    for (int i = 0; i < NADD; i++) { cmb_dataset_add(dt, 1.0 + i); cmb_timeseries_add(tt, 1.0 + i, (double)(NS + i)); }
+    sym_assert(cmb_dataset_count(dt) == NS + NADD && cmb_timeseries_count(tt) == NS + NADD, "the copy grows on its own");
+    sym_assert(cmb_dataset_count(ds) == NS && cmb_timeseries_count(ts) == NS, "the source is unchanged");
+    cmb_timeseries_finalize(tt, (double)(NS + NADD + 1));
+    (void)cmb_timeseries_median(tt);
+    (void)cmb_dataset_median(dt);
+    cmb_dataset_destroy(dt); cmb_dataset_destroy(ds);
+    cmb_timeseries_destroy(tt); cmb_timeseries_destroy(ts);
+}
+
+const struct sym_entry sym_entries[] = { {"a_dataset", a_dataset}, {"a_timeseries", a_timeseries}, {"a_logger_names", a_logger_names}, {"a_reports_unrecorded", a_reports_unrecorded}, {"a_stop_not_running", a_stop_not_running},
+    {"a_copy_into_used", a_copy_into_used}, {0, 0} };
